@@ -262,6 +262,13 @@ Definition star_of (names : list string) : gres :=
 Definition star_tree (n : nat) : gres := star_of (map tip_name (seq 0 n)).
 Definition star_tree_from_name (names : list string) : gres := star_of names.
 
+(** StarTreeFromTree(t): a star with one branch per tip branch of t (Tree.TipEdges() order), named
+    and sized after it; then ReinitIndexes (its error -- duplicated names -- is returned) *)
+Definition star_tree_from_tree (t : utree) : gres :=
+  let es := tip_edges t in
+  if Nat.ltb (length es) 2 then GErr "Cannot create a star tree with less than 2 tips"
+  else GOk (UNode "" [] (map (fun p => Some (eL (elen (fst p)), tip_node (uname (snd p)))) es)).
+
 (** ** AllTopologies *)
 (** every tree obtained by grafting [tip] on one edge of [t], in the order of Tree.Edges()
     (the branch of a slot, then the branches below it, then the next slot); all three
